@@ -14,7 +14,7 @@ EXPLANATION = (
     "(the term's variables and Z for I, J, K; the variables of both operand formulas for Q, R; the atomic formula's variables for Z1..Zk; the "
     "program's variables for V1..Vn); the prefixes are pairwise distinct letters; the search loop of choose_fresh_variable_names tests both the taken "
     "and the already chosen names. COLLECT: the asp `variables` collectors visit every field that can contain a variable. DISPATCH: tau_b, "
-    "tau_star_rule and tau_star route every rule / literal kind to its constructor.")
+    "tau_star_rule and tau_star route every rule / literal kind to its constructor. PARSE: the operator levels of the term parser are the language's (.. | + - | * / \\ | unary -, left-associative) and the printer's parentheses agree with them (C14's precedence rows).")
 UNDECIDED = ["that the published val / tau^B / tau* definitions characterise the HT and stable models (literature)",
              "arithmetic corner cases of the definition itself (division by a negative divisor follows the arXiv paper)",
              "overflow of the global-variable counter (C16 known finding PANIC-OVF:global-variable-counter)"]
